@@ -256,6 +256,7 @@ func (e *Emitter) emitScriptStatement(scriptStmt *ast.ScriptStatement, textLabel
 			if !ok {
 				return "", errors.New("could not emit 'break' statement because its return point is unknown")
 			}
+			remainingChunks = curChunk.keepStatementsAfterJump(i, &chunkCounter, remainingChunks)
 			completeChunk := &chunk{
 				id:             curChunk.id,
 				returnID:       curChunk.returnID,
@@ -268,6 +269,7 @@ func (e *Emitter) emitScriptStatement(scriptStmt *ast.ScriptStatement, textLabel
 			if !ok {
 				return "", errors.New("could not emit 'continue' statement because its return point is unknown")
 			}
+			remainingChunks = curChunk.keepStatementsAfterJump(i, &chunkCounter, remainingChunks)
 			completeChunk := &chunk{
 				id:             curChunk.id,
 				returnID:       curChunk.returnID,
